@@ -2,6 +2,7 @@ package main
 
 import (
 	"fmt"
+	"go/constant"
 	"go/token"
 	"go/types"
 	"sort"
@@ -64,7 +65,7 @@ func checkC07(c *Ctx) {
 	// NextCh calls and the values derived from their first result
 	var nextCalls []*ssa.Call
 	eachInstr(fn, func(in ssa.Instruction) {
-		if call, ok := in.(*ssa.Call); ok && strings.HasSuffix(calleeName(&call.Call), "paramsBuffer).NextCh") {
+		if call, ok := in.(*ssa.Call); ok && p.isInputRead(&call.Call) {
 			nextCalls = append(nextCalls, call)
 		}
 	})
@@ -620,7 +621,7 @@ func c07Loops(c *Ctx, p *Prog, fn *ssa.Function, chOf map[ssa.Value]*ssa.Call) {
 			if !ok || ex.Index != 1 {
 				continue
 			}
-			if call, ok := ex.Tuple.(*ssa.Call); ok && body[call.Block()] && strings.HasSuffix(calleeName(&call.Call), "NextCh") {
+			if call, ok := ex.Tuple.(*ssa.Call); ok && body[call.Block()] && p.isInputRead(&call.Call) {
 				if !body[b.Succs[0]] {
 					exitOnErr = true
 				}
@@ -632,24 +633,103 @@ func c07Loops(c *Ctx, p *Prog, fn *ssa.Function, chOf map[ssa.Value]*ssa.Call) {
 	if n < 4 {
 		c.Undecided("C07-R4", "loops", p.pos(fn.Pos()), fmt.Sprintf("only %d loops found in TParm", n))
 	}
-	// only Start writes the input: the fields NextCh reads from are found by role (whatever their names
-	// and representation: a bytes.Buffer, or a string with a read offset), and their writers are
-	// enumerated; NextCh itself may only move a read offset forward
-	nextCh := p.Fn("terminfo:(*paramsBuffer).NextCh")
-	inputFields := map[string]bool{}
-	if nextCh != nil {
-		eachInstr(nextCh, func(in ssa.Instruction) {
-			for _, op := range in.Operands(nil) {
-				if *op == nil {
-					continue
-				}
-				if ref, _, ok := fieldAddrRef(*op); ok && ref.Owner == "terminfo.paramsBuffer" {
-					inputFields[ref.Name] = true
+	var reads []*ssa.Call
+	seenCall := map[*ssa.Call]bool{}
+	for _, call := range chOf {
+		if !seenCall[call] {
+			seenCall[call] = true
+			reads = append(reads, call)
+		}
+	}
+	sort.Slice(reads, func(i, j int) bool { return reads[i].Pos() < reads[j].Pos() })
+	c07InputOnlyFilledOnce(c, p, fn, reads)
+}
+
+// c07InputOnlyFilledOnce: what the interpreter reads is the string it was given and nothing else:
+// the input is filled once, before the first read, and afterwards only read forward.  The reader is
+// found by role (isInputRead): a helper method of package terminfo over fields of its receiver
+// (whatever their names and representation: a bytes.Buffer, a strings.Reader, a string with a read
+// offset), or a standard byte reader created by the call itself.
+func c07InputOnlyFilledOnce(c *Ctx, p *Prog, fn *ssa.Function, reads []*ssa.Call) {
+	const key = "input-buffer:only-Start-writes"
+	var helper *ssa.Function
+	direct := 0
+	for _, call := range reads {
+		if f := call.Call.StaticCallee(); f != nil && f.Pkg == p.Terminfo {
+			if helper != nil && helper != f {
+				c.Undecided("C07-R4", key, p.pos(call.Pos()), "two different reader helpers in one interpreter: "+helper.Name()+" and "+f.Name())
+				return
+			}
+			helper = f
+		} else {
+			direct++
+		}
+	}
+	if helper != nil && direct > 0 {
+		c.Undecided("C07-R4", key, p.pos(fn.Pos()), "the input is read both through "+helper.Name()+" and directly")
+		return
+	}
+	dominatesReads := func(b *ssa.BasicBlock) bool {
+		for _, r := range reads {
+			if b != r.Block() && !b.Dominates(r.Block()) {
+				return false
+			}
+			if b == r.Block() {
+				return false // a fill in a block that also reads: order not established here
+			}
+		}
+		return true
+	}
+	if helper == nil {
+		// the reader object is created by this call and used for nothing but reading
+		var rv ssa.Value
+		for _, call := range reads {
+			if rv != nil && call.Call.Args[0] != rv {
+				c.Fail("C07-R4", key, p.pos(call.Pos()), "reads from two different readers: "+valName(rv)+" and "+valName(call.Call.Args[0]))
+				return
+			}
+			rv = call.Call.Args[0]
+		}
+		fills, detail := 0, ""
+		switch x := rv.(type) {
+		case *ssa.Call:
+			n := calleeName(&x.Call)
+			if (n == "strings.NewReader" || n == "bytes.NewBufferString" || n == "bytes.NewReader" || n == "bytes.NewBuffer") && len(x.Call.Args) == 1 && derivesFromParam(x.Call.Args[0], fn, 1) && dominatesReads(x.Block()) {
+				fills = 1
+			} else {
+				detail = "the reader is " + n + "(" + valName(x.Call.Args[0]) + ")"
+			}
+		case *ssa.Alloc:
+		default:
+			c.Fail("C07-R4", key, p.pos(fn.Pos()), "the reader is neither created by this call nor a local: "+valName(rv))
+			return
+		}
+		for _, r := range referrers(rv) {
+			if _, isDbg := r.(*ssa.DebugRef); isDbg {
+				continue
+			}
+			cc := callCommon(r)
+			if cc == nil || len(cc.Args) == 0 || cc.Args[0] != rv {
+				detail += "the reader escapes at " + p.pos(r.Pos()) + "; "
+				continue
+			}
+			if p.isInputRead(cc) {
+				continue
+			}
+			if mutatesReader(calleeName(cc)) {
+				if _, isAlloc := rv.(*ssa.Alloc); isAlloc && len(cc.Args) == 2 && derivesFromParam(cc.Args[1], fn, 1) && dominatesReads(r.Block()) {
+					fills++
+				} else {
+					detail += calleeName(cc) + " on the reader at " + p.pos(r.Pos()) + "; "
 				}
 			}
-		})
+		}
+		c.Check(fills == 1 && detail == "", "C07-R4", key, p.pos(fn.Pos()), fmt.Sprintf("the reader is local to the call, filled %d time(s) from the string given, before every read; otherwise only read %s", fills, detail))
+		return
 	}
-	writers := map[string]bool{}
+	owner := recvTypeName(helper)
+	inputFields := p.inputFieldsOf(helper)
+	writers := map[*ssa.Function]bool{}
 	backwards := ""
 	for _, f := range p.modFns {
 		if f.Pkg != p.Terminfo {
@@ -657,8 +737,8 @@ func c07Loops(c *Ctx, p *Prog, fn *ssa.Function, chOf map[ssa.Value]*ssa.Call) {
 		}
 		eachInstr(f, func(in ssa.Instruction) {
 			if st, isSt := in.(*ssa.Store); isSt {
-				if ref, _, ok := fieldAddrRef(st.Addr); ok && ref.Owner == "terminfo.paramsBuffer" && inputFields[ref.Name] {
-					if f == nextCh {
+				if ref, _, ok := fieldAddrRef(st.Addr); ok && ref.Owner == owner && inputFields[ref.Name] {
+					if f == helper {
 						okFwd := false
 						if bo, isBO := st.Val.(*ssa.BinOp); isBO && bo.Op == token.ADD {
 							if k, isK := constInt(bo.Y); isK && k > 0 {
@@ -668,29 +748,59 @@ func c07Loops(c *Ctx, p *Prog, fn *ssa.Function, chOf map[ssa.Value]*ssa.Call) {
 							}
 						}
 						if !okFwd {
-							backwards += "NextCh stores " + valName(st.Val) + " into " + ref.Name + "; "
+							backwards += helper.Name() + " stores " + valName(st.Val) + " into " + ref.Name + "; "
 						}
 						return
 					}
-					writers[f.Name()] = true
+					writers[f] = true
 				}
 				return
 			}
 			cc := callCommon(in)
-			if cc == nil || len(cc.Args) == 0 || f == nextCh {
+			if cc == nil || len(cc.Args) == 0 {
 				return
 			}
 			ref, _, ok := fieldAddrRef(cc.Args[0])
-			if !ok || ref.Owner != "terminfo.paramsBuffer" || !inputFields[ref.Name] {
+			if !ok || ref.Owner != owner || !inputFields[ref.Name] {
 				return
 			}
 			n := calleeName(cc)
-			if strings.Contains(n, "Write") || strings.Contains(n, "Unread") {
-				writers[f.Name()] = true
+			if f == helper {
+				if !stdByteReaders[n] && mutatesReader(n) {
+					backwards += helper.Name() + " calls " + n + " on " + ref.Name + "; "
+				}
+				return
+			}
+			if mutatesReader(n) {
+				writers[f] = true
 			}
 		})
 	}
-	c.Check(len(inputFields) > 0 && len(writers) == 1 && writers["Start"] && backwards == "", "C07-R4", "input-buffer:only-Start-writes", "-", fmt.Sprintf("input fields (read by NextCh): %v; functions writing them: %v %s", sortedKeys(inputFields), sortedKeys(writers), backwards))
+	var names []string
+	var filler *ssa.Function
+	for f := range writers {
+		names = append(names, f.Name())
+		filler = f
+	}
+	sort.Strings(names)
+	// the one filler is called by the interpreter with the string given, before every read
+	early := false
+	if len(writers) == 1 {
+		eachInstr(fn, func(in ssa.Instruction) {
+			if cc := callCommon(in); cc != nil && cc.StaticCallee() == filler && dominatesReads(in.Block()) {
+				early = true
+			}
+		})
+	}
+	c.Check(len(inputFields) > 0 && len(writers) == 1 && early && backwards == "", "C07-R4", key, "-", fmt.Sprintf("input fields (read by %s): %v; functions writing them: %v, called before every read: %v %s", helper.Name(), sortedKeys(inputFields), names, early, backwards))
+}
+
+// derivesFromParam: v is parameter #idx of fn, possibly converted or sliced from its start... only
+// conversions are accepted: a slice would drop part of the program.
+func derivesFromParam(v ssa.Value, fn *ssa.Function, idx int) bool {
+	v = stripConv(v)
+	par, ok := v.(*ssa.Parameter)
+	return ok && idx < len(fn.Params) && fn.Params[idx] == par
 }
 
 func firstPos(b *ssa.BasicBlock) token.Pos {
@@ -734,7 +844,17 @@ func loopExitsForZero(h *ssa.BasicBlock, body map[*ssa.BasicBlock]bool, chOf map
 			}
 		case *ssa.If:
 			bo, ok := t.Cond.(*ssa.BinOp)
-			if !ok || !isCh(bo.X) {
+			if !ok {
+				return false
+			}
+			// the left side for the zero byte: the byte itself, or its position in a constant set
+			// (strings.IndexByte(set, ch) and the like)
+			var lhs int64
+			if isCh(bo.X) {
+				lhs = 0
+			} else if set, v, isIdx := constSetIndex(bo.X); isIdx && isCh(v) {
+				lhs = int64(strings.IndexByte(set, 0))
+			} else {
 				return false
 			}
 			k, ok := constInt(bo.Y)
@@ -744,17 +864,17 @@ func loopExitsForZero(h *ssa.BasicBlock, body map[*ssa.BasicBlock]bool, chOf map
 			var res bool
 			switch bo.Op {
 			case token.EQL:
-				res = 0 == k
+				res = lhs == k
 			case token.NEQ:
-				res = 0 != k
+				res = lhs != k
 			case token.LSS:
-				res = 0 < k
+				res = lhs < k
 			case token.LEQ:
-				res = 0 <= k
+				res = lhs <= k
 			case token.GTR:
-				res = 0 > k
+				res = lhs > k
 			case token.GEQ:
-				res = 0 >= k
+				res = lhs >= k
 			default:
 				return false
 			}
@@ -1017,19 +1137,21 @@ func c07SkipNesting(c *Ctx, p *Prog, fn *ssa.Function, dispatch ssa.Value) {
 	}
 	nExit, bad := 0, ""
 	for _, st := range toEmit {
-		as := guardsOnEdge(st.pred, st.succ)
-		if !inSkipRegion(as) {
+		if !inSkipRegion(guardsOnEdge(st.pred, st.succ)) {
 			continue
 		}
 		nExit++
-		ok := false
-		for _, g := range as {
-			if g.L == "nest" && ((g.Op == "<=" && g.R == "0") || (g.Op == "==" && g.R == "0") || (g.Op == "<" && g.R == "1")) {
-				ok = true
+		// every way of getting here (the assignment may be the shared body of `a || (b && c)`)
+		for _, as := range guardAlternativesOnEdge(st.pred, st.succ) {
+			ok := false
+			for _, g := range as {
+				if g.L == "nest" && ((g.Op == "<=" && g.R == "0") || (g.Op == "==" && g.R == "0") || (g.Op == "<" && g.R == "1")) {
+					ok = true
+				}
 			}
-		}
-		if !ok {
-			bad += fmt.Sprintf("the skip ends at %s without testing the nesting counter (guards: %v); ", p.pos(firstPos(st.pred)), as)
+			if !ok {
+				bad += fmt.Sprintf("the skip ends at %s without testing the nesting counter (guards: %v); ", p.pos(firstPos(st.pred)), as)
+			}
 		}
 	}
 	c.Check(bad == "" && nExit > 0, "C07-R3", "skip-scanner:exit-only-at-own-level", p.pos(fn.Pos()), fmt.Sprintf("%d return(s) to the emitting mode from the skipping region, each under `nest == 0` %s", nExit, bad))
@@ -1133,19 +1255,18 @@ func charOutputRule(c *Ctx, p *Prog, fn *ssa.Function, bo *ssa.BinOp, rule strin
 		if cc == nil {
 			continue
 		}
-		n := calleeName(cc)
-		if strings.HasSuffix(n, "paramsBuffer).PutCh") && len(cc.Args) == 2 {
-			if cv, isCv := cc.Args[1].(*ssa.Convert); isCv {
+		if arg, isPut := p.outputByteArg(cc); isPut {
+			if cv, isCv := arg.(*ssa.Convert); isCv {
 				if call := popIntResult(cv.X); call != nil {
 					if b, isB := cv.Type().Underlying().(*types.Basic); isB && (b.Kind() == types.Byte || b.Kind() == types.Uint8) {
-						ok, detail = true, "PutCh(byte(PopInt()))"
+						ok, detail = true, "one byte written: byte(PopInt())"
 						continue
 					}
 				}
 			}
-			detail = "PutCh argument is " + valName(cc.Args[1])
-		} else if strings.HasSuffix(n, "paramsBuffer).PutString") {
-			ok, detail = false, "%c writes a string ("+valName(cc.Args[1])+"): more than one byte for values of 128 and above"
+			detail = "the byte written is " + valName(arg)
+		} else if arg, isStr := p.outputStringArg(cc); isStr {
+			ok, detail = false, "%c writes a string ("+valName(arg)+"): more than one byte for values of 128 and above"
 			break
 		}
 	}
@@ -1167,6 +1288,14 @@ func c07Increment(c *Ctx, p *Prog, fn *ssa.Function) {
 			return
 		}
 		k, ok := constInt(ia.Index)
+		// the two increments written as a loop over the first two parameters: the index runs over
+		// exactly 0 and 1, and the loop is left only through its counter
+		var loopIdx *ssa.Phi
+		if !ok {
+			if phi, isPhi := ia.Index.(*ssa.Phi); isPhi && countsZeroOne(phi) {
+				loopIdx, ok, k = phi, true, 0
+			}
+		}
 		if !ok || k > 1 {
 			return
 		}
@@ -1195,10 +1324,16 @@ func c07Increment(c *Ctx, p *Prog, fn *ssa.Function) {
 		same := false
 		if ld, ok := ta.X.(*ssa.UnOp); ok {
 			if ia2, ok := ld.X.(*ssa.IndexAddr); ok && ia2.X == ia.X {
-				if k2, ok := constInt(ia2.Index); ok && k2 == k {
+				if k2, ok := constInt(ia2.Index); ok && k2 == k && loopIdx == nil {
+					same = true
+				}
+				if loopIdx != nil && ia2.Index == ssa.Value(loopIdx) {
 					same = true
 				}
 			}
+		}
+		if loopIdx != nil {
+			n++
 		}
 		// guards inside the case: only this assertion's ok
 		foreign := ""
@@ -1208,6 +1343,12 @@ func c07Increment(c *Ctx, p *Prog, fn *ssa.Function) {
 					foreign = "also depends on the type of " + valName(gta.X)
 				}
 			}
+		}
+		if loopIdx != nil {
+			// one store standing for both increments
+			c.Check(same && foreign == "", "C07-R8", "op:%i:param1", p.pos(st.Pos()), "params[n] = params[n].(int) + 1 for n = 0, 1 "+foreign)
+			c.Check(same && foreign == "", "C07-R8", "op:%i:param2", p.pos(st.Pos()), "params[n] = params[n].(int) + 1 for n = 0, 1 "+foreign)
+			return
 		}
 		c.Check(same && foreign == "", "C07-R8", key, p.pos(st.Pos()), fmt.Sprintf("params[%d] = params[%d].(int) + 1 %s", k, k, foreign))
 	})
@@ -1260,11 +1401,18 @@ func c07PopDiscipline(c *Ctx, p *Prog, fn *ssa.Function) {
 func c07CallLocal(c *Ctx, p *Prog, fn *ssa.Function) {
 	// (1) package-level objects touched by TParm and the buffer's methods
 	globals := map[string]bool{}
+	// … and everything it calls in its own package (the buffer's and the stack's methods today)
 	fns := []*ssa.Function{fn}
-	for _, f := range p.modFns {
-		if f.Pkg == p.Terminfo && (recvTypeName(f) == "terminfo.paramsBuffer" || recvTypeName(f) == "terminfo.stack") {
-			fns = append(fns, f)
-		}
+	seenFn := map[*ssa.Function]bool{fn: true}
+	for i := 0; i < len(fns); i++ {
+		eachInstr(fns[i], func(in ssa.Instruction) {
+			if cc := callCommon(in); cc != nil {
+				if f := cc.StaticCallee(); f != nil && f.Pkg == p.Terminfo && !seenFn[f] {
+					seenFn[f] = true
+					fns = append(fns, f)
+				}
+			}
+		})
 	}
 	for _, f := range fns {
 		eachInstr(f, func(in ssa.Instruction) {
@@ -1282,20 +1430,44 @@ func c07CallLocal(c *Ctx, p *Prog, fn *ssa.Function) {
 		}
 	}
 	c.Check(okG && globals["svars"], "C07-R10", "TParm:package-state", p.pos(fn.Pos()), fmt.Sprintf("package-level variables used by the interpreter: %v (only the static variables may outlive a call)", sortedKeys(globals)))
-	// (2) the scratch buffer is allocated by the call
-	okPB := false
+	// (2) what the call reads its program from and collects its output in is allocated by the call
+	okPB := true
+	nIO := 0
 	detail := ""
 	eachInstr(fn, func(in ssa.Instruction) {
 		cc := callCommon(in)
-		if cc == nil || !strings.HasSuffix(calleeName(cc), "paramsBuffer).Start") {
+		if cc == nil {
 			return
 		}
-		if al, ok := cc.Args[0].(*ssa.Alloc); ok && al.Parent() == fn {
-			okPB = true
-		} else {
-			detail = "the buffer handed to Start is " + valName(cc.Args[0])
+		_, isB := p.outputByteArg(cc)
+		_, isS := p.outputStringArg(cc)
+		if !isB && !isS && !p.isInputRead(cc) {
+			return
 		}
+		nIO++
+		base := cc.Args[0]
+		for {
+			if fa, ok := base.(*ssa.FieldAddr); ok {
+				base = fa.X
+				continue
+			}
+			break
+		}
+		switch x := base.(type) {
+		case *ssa.Alloc:
+			if x.Parent() == fn {
+				return
+			}
+		case *ssa.Call:
+			switch calleeName(&x.Call) {
+			case "strings.NewReader", "bytes.NewBufferString", "bytes.NewReader", "bytes.NewBuffer":
+				return
+			}
+		}
+		okPB = false
+		detail = "the buffer used at " + p.pos(in.Pos()) + " is " + valName(base)
 	})
+	okPB = okPB && nIO > 0
 	c.Check(okPB, "C07-R10", "TParm:buffer-allocated-here", p.pos(fn.Pos()), "the params buffer is a fresh allocation of this call "+detail)
 	// (3) the dynamic variables: the array indexed by (ch - 'a')
 	okDV, n := true, 0
@@ -1335,7 +1507,7 @@ func tparmDispatch(p *Prog) (*ssa.Function, ssa.Value) {
 	best := 0
 	eachInstr(fn, func(in ssa.Instruction) {
 		call, ok := in.(*ssa.Call)
-		if !ok || !strings.HasSuffix(calleeName(&call.Call), "paramsBuffer).NextCh") {
+		if !ok || !p.isInputRead(&call.Call) {
 			return
 		}
 		for _, r := range referrers(call) {
@@ -1512,7 +1684,7 @@ func c07Handlers(c *Ctx, p *Prog, fn *ssa.Function, dispatch ssa.Value) {
 	if reg := region('\''); reg != nil {
 		var first *ssa.Call
 		inRegion(reg, func(in ssa.Instruction) {
-			if call, ok := in.(*ssa.Call); ok && first == nil && strings.HasSuffix(calleeName(&call.Call), "paramsBuffer).NextCh") {
+			if call, ok := in.(*ssa.Call); ok && first == nil && p.isInputRead(&call.Call) {
 				first = call
 			}
 		})
@@ -1690,4 +1862,75 @@ func nonEmptyAtom(g []Atom, l string) bool {
 		}
 	}
 	return false
+}
+
+// constSetIndex: v is the position of a byte in a constant set of bytes — strings.IndexByte(set, b),
+// strings.IndexRune(set, rune(b)) or bytes.IndexByte([]byte(set), b) with a constant set.  It returns
+// the set and the byte looked up.
+func constSetIndex(v ssa.Value) (string, ssa.Value, bool) {
+	call, ok := v.(*ssa.Call)
+	if !ok || len(call.Call.Args) != 2 {
+		return "", nil, false
+	}
+	switch calleeName(&call.Call) {
+	case "strings.IndexByte", "strings.IndexRune", "bytes.IndexByte", "bytes.IndexRune":
+	default:
+		return "", nil, false
+	}
+	k, ok := stripConv(call.Call.Args[0]).(*ssa.Const)
+	if !ok || k.Value == nil || k.Value.Kind() != constant.String {
+		return "", nil, false
+	}
+	return constant.StringVal(k.Value), stripConv(call.Call.Args[1]), true
+}
+
+// countsZeroOne: phi is the counter of a loop that runs its body for 0 and for 1 and for nothing
+// else: phi(0, phi+1), tested `phi < 2` (or `<= 1`) in the loop header, and no other way out of the
+// loop than that test.
+func countsZeroOne(phi *ssa.Phi) bool {
+	if len(phi.Edges) != 2 {
+		return false
+	}
+	zero, step := false, false
+	for _, e := range phi.Edges {
+		if k, ok := constInt(e); ok && k == 0 {
+			zero = true
+		}
+		if add, ok := e.(*ssa.BinOp); ok && add.Op == token.ADD && add.X == ssa.Value(phi) {
+			if k, ok := constInt(add.Y); ok && k == 1 {
+				step = true
+			}
+		}
+	}
+	if !zero || !step {
+		return false
+	}
+	h := phi.Block()
+	body := loopsOf(h.Parent())[h]
+	if body == nil || len(h.Instrs) == 0 {
+		return false
+	}
+	iff, ok := h.Instrs[len(h.Instrs)-1].(*ssa.If)
+	if !ok || !body[h.Succs[0]] || body[h.Succs[1]] {
+		return false
+	}
+	cmp, ok := iff.Cond.(*ssa.BinOp)
+	if !ok || cmp.X != ssa.Value(phi) {
+		return false
+	}
+	k, ok := constInt(cmp.Y)
+	if !ok || !((cmp.Op == token.LSS && k == 2) || (cmp.Op == token.LEQ && k == 1)) {
+		return false
+	}
+	for b := range body {
+		if b == h {
+			continue
+		}
+		for _, s := range b.Succs {
+			if !body[s] {
+				return false // a second way out (break, return): the second increment may be skipped
+			}
+		}
+	}
+	return true
 }
